@@ -582,6 +582,13 @@ int main(void)
 			   U32(w[4], &a[3]) && U32(w[5], &a[4]) && U32(w[6], &a[5]) && U32(w[7], &a[6]) && U32(w[8], &a[7]) &&
 			   U32(w[9], &a[8]) && TIME(w[10], &a[9])) {
 			op_eod(a[0], a[1], a[2], a[3], a[4], a[5], a[6], a[7], a[8], a[9]);
+		} else if (n == 3 && !strcmp(w[0], "setmode") && I32(w[1], &a[0]) && I32(w[2], &a[1])) {
+			struct rtr_socket sock;
+
+			memset(&sock, 0, sizeof(sock));
+			sock.iv_mode = (enum rtr_interval_mode)(int)a[0];
+			rtr_set_interval_mode(&sock, (enum rtr_interval_mode)(int)a[1]);
+			printf("%d\n", (int)rtr_get_interval_mode(&sock));
 		} else if (n == 5 && !strcmp(w[0], "wait") && TIME(w[1], &a[0]) && U32(w[2], &a[1]) && TIME(w[3], &a[2]) &&
 			   (!strcmp(w[4], "notify") || !strcmp(w[4], "other") || !strcmp(w[4], "timeout") ||
 			    !strcmp(w[4], "intr") || !strcmp(w[4], "error"))) {
